@@ -256,7 +256,7 @@ def gen_case(rng, tier):
 
 
 def plan(tier, seed, n):
-    per = 4 if tier == 'quick' else 60
+    per = 4 if tier == 'quick' else 12
     return [{'n': per} for _ in range(n)]
 
 
